@@ -43,6 +43,7 @@ class SequenceOrSetPayloadDecoder(object):
 class SequenceOfOrSetOfPayloadDecoder(object):
     def __call__(self, pyObject, asn1Spec, decodeFun=None, **options):
         asn1Value = asn1Spec.clone()
+        asn1Value.clear()
 
         for pyValue in pyObject:
             asn1Value.append(decodeFun(pyValue, asn1Spec.componentType, **options))
